@@ -247,6 +247,10 @@ class Check:
         self.assumptions = []
         os.makedirs(EVIDENCE, exist_ok=True)
         os.makedirs(os.path.join(REPLAY, prop), exist_ok=True)
+        # replay files of an earlier run of this tier would be mistaken for this run's
+        import glob
+        for old in glob.glob(os.path.join(REPLAY, prop, "%s_%s_*.json" % (prop, tier))):
+            os.remove(old)
 
     # -- coverage bookkeeping
     def add_tlc(self, name, res, note=""):
